@@ -272,6 +272,11 @@ func run(work string) int {
 	wg.Wait()
 
 	var parts []vk.Part
+	// a part that ends as an infrastructure error does not hide what the other parts found: its
+	// error is kept, the remaining parts run, violations (if any) are reported with exit 1, and only
+	// a run without violations ends as INFRA (exit 2)
+	var partInfra []string
+	var okSpecs []partSpec
 	for i, p := range spec.Parts {
 		out := filepath.Join(work, fmt.Sprintf("part-%d.json", i))
 		cmd := exec.Command(b.build(p.Bin), append([]string{p.Name}, p.Args...)...)
@@ -300,20 +305,28 @@ func run(work string) int {
 		case <-time.After(limit):
 			syscall.Kill(-cmd.Process.Pid, syscall.SIGKILL)
 			<-done
-			infra("part %s did not finish within %v (hung?) and was killed", p.Name, limit)
+			partInfra = append(partInfra, fmt.Sprintf("part %s did not finish within %v (hung?) and was killed", p.Name, limit))
+			continue
 		}
 		pb, rerr := os.ReadFile(out)
 		if rerr != nil {
-			infra("part %s produced no report (run error: %v)", p.Name, err)
+			partInfra = append(partInfra, fmt.Sprintf("part %s produced no report (run error: %v)", p.Name, err))
+			continue
 		}
 		var part vk.Part
 		if jerr := json.Unmarshal(pb, &part); jerr != nil {
-			infra("part %s report unreadable: %v", p.Name, jerr)
+			partInfra = append(partInfra, fmt.Sprintf("part %s report unreadable: %v", p.Name, jerr))
+			continue
 		}
 		if part.Infra != "" || err != nil {
-			infra("part %s failed: %v %s", p.Name, err, part.Infra)
+			partInfra = append(partInfra, fmt.Sprintf("part %s failed: %v %s", p.Name, err, part.Infra))
+			continue
 		}
 		parts = append(parts, part)
+		okSpecs = append(okSpecs, p)
+	}
+	if replay != nil && len(partInfra) > 0 {
+		infra("%s", partInfra[0])
 	}
 	if replay != nil {
 		for _, p := range parts {
@@ -326,10 +339,22 @@ func run(work string) int {
 		}
 		return 0
 	}
-	return report(id, spec, tier, seed, parts, start)
+	if len(partInfra) == 0 {
+		return report(id, spec, tier, seed, parts, start, nil)
+	}
+	spec.Parts = okSpecs
+	code := report(id, spec, tier, seed, parts, start, partInfra)
+	for _, m := range partInfra {
+		fmt.Fprintf(os.Stderr, "INFRA: %s\n", m)
+	}
+	if code == 1 {
+		return 1
+	}
+	infra("%d part(s) ended as infrastructure error and the others found no violation", len(partInfra))
+	return 2
 }
 
-func report(id string, spec propSpec, tier string, seed int64, parts []vk.Part, start time.Time) int {
+func report(id string, spec propSpec, tier string, seed int64, parts []vk.Part, start time.Time, partInfra []string) int {
 	findings := vk.LoadFindings()
 	cov := map[string]any{}
 	var evals, dist, states, trans, traces, outcomes, unclaimed int64
@@ -415,6 +440,13 @@ func report(id string, spec propSpec, tier string, seed int64, parts []vk.Part, 
 		samples = append(samples, "no sample recorded")
 	}
 	cov["samples"] = samples
+	for _, m := range partInfra {
+		exhaustive = false
+		caps = append(caps, "INFRASTRUCTURE ERROR, part not counted: "+m)
+	}
+	if len(partInfra) > 0 && exit == 0 {
+		return 2 // nothing is written for a run that is neither a verdict nor a finding
+	}
 	cov["exhaustive"] = exhaustive
 	if states > 0 {
 		cov["states"] = states
